@@ -18,6 +18,7 @@ class Aggregate:
         self.stats = collections.defaultdict(collections.Counter)
         self.samples = []
         self.run_wall = 0.0
+        self.max_run_wall = collections.defaultdict(float)
         self.per_machine_runs = collections.Counter()
 
     def add(self, r):
@@ -25,6 +26,7 @@ class Aggregate:
         self.per_machine_runs[r["machine"]] += 1
         self.steps += r["steps"]
         self.run_wall += r["wall"]
+        self.max_run_wall[r["machine"]] = max(self.max_run_wall[r["machine"]], r["wall"])
         key = (r["machine"], r["digest"])
         self.digests.add(key)
         if r["nontrivial"]:
@@ -69,6 +71,7 @@ class Aggregate:
             "total_ops": self.steps,
             "runs_per_machine": dict(self.per_machine_runs),
             "runs_per_hour": int(self.evaluations / wall * 3600) if wall > 0 else 0,
+            "slowest_run_wall_s": {k: round(v, 3) for k, v in sorted(self.max_run_wall.items())},
             "ops_fired": ops,
             "fault_kinds_fired": faults,
             "prng_draws_by_function": draws,
